@@ -199,7 +199,13 @@ def c17(tier, seed):
                 extra=["--mode", "c17"])
     ck.assumptions += ["reference codec src/ref/refcodec.cpp (written from the OASIS text, no boost/mqtt5 include) is the MQTT 5 rule",
                        "binary fields above 65535 bytes are outside the quantifier"]
+    _sim_part(ck, "C17", tier, seed,
+              "in situ: every packet the real client writes in seeded workloads (publish/subscribe/unsubscribe mixes with all property "
+              "combinations, inbound QoS 1/2 traffic producing PUBACK/PUBREC/PUBCOMP, random CONNECT configurations with Will and "
+              "authenticator AUTH packets, DISCONNECTs, PINGREQs) is decoded by the independent codec at the moment it is offered to the "
+              "transport: must be well formed with no protocol issue. " + SHAPE)
     ck.require("codec_probe.presence_subsets")
+    ck.require("sim.client_packets_decoded", 1000)
     return ck.finish()
 
 
